@@ -68,8 +68,9 @@ class Molecule(BigSMILESbase):
                         other_bd = self._elements[-1].bond_descriptors[-1]
                     if len(pre_stochastic.bond_descriptors) > 0:
                         found_compatible = False
-                        for bd in pre_stochastic.bond_descriptors[0]:
-                            if bd.is_compatible(other_bd):
+                        expected_text = _create_compatible_bond_text(other_bd)
+                        for bd in pre_stochastic.bond_descriptors:
+                            if _create_compatible_bond_text(bd) == expected_text:
                                 found_compatible = True
                         if not found_compatible:
                             raise RuntimeError(
